@@ -474,6 +474,9 @@ class AirTouchSocket(Generic[comms.Hdr]):
                 # The socket was closed while this write was in progress.
                 # Nothing is kept for a later session.
                 self._log_dropped_message(entry, "closed")
+            elif len(self._message_queue) >= MAX_MESSAGE_QUEUE_SIZE:
+                # Several writes failed at once and the queue is already full.
+                self._log_dropped_message(entry, "overflow")
             else:
                 # Return this message to the head of the queue for a retry
                 self._message_queue.appendleft(
